@@ -152,7 +152,16 @@ func e3Model() porcupine.Model {
 			case "update":
 				a := modelUpdate(c, i.Typ, i.Obj, fs[f])
 				post := c.clone()
-				for id := range a { // singleton by construction
+				if len(a) > 1 {
+					// unspecified zone U1 (a delete older than the cached version, possible
+					// with two writers): either outcome is allowed; the returned events say
+					// which one the cache took
+					if strings.Contains(o, "delete "+i.Obj.key()+"@") {
+						delete(post, i.Obj.key())
+					}
+					return e3NormEvents(o) == e3Diff(c, post), e3Encode(f, post)
+				}
+				for id := range a { // singleton otherwise
 					if id == absent {
 						delete(post, i.Obj.key())
 					} else if id == i.Obj.id() {
